@@ -101,8 +101,14 @@ func candidates(s *RunSpec) []*RunSpec {
 	if s.Policy.DelayP > 0 {
 		add(func(c *RunSpec) bool { c.Policy.DelayP = 0; return true })
 	}
+	if s.Policy.ReplyP > 0 {
+		add(func(c *RunSpec) bool { c.Policy.ReplyP = 0; return true })
+	}
 	if s.Policy.Kind != "first" || s.Policy.P != 0 {
-		add(func(c *RunSpec) bool { c.Policy = PolicySpec{Kind: "first", DelayP: c.Policy.DelayP}; return true })
+		add(func(c *RunSpec) bool {
+			c.Policy = PolicySpec{Kind: "first", DelayP: c.Policy.DelayP, ReplyP: c.Policy.ReplyP}
+			return true
+		})
 	}
 	for pi := range s.Plans {
 		p := &s.Plans[pi]
